@@ -26,7 +26,10 @@ pub fn block_timeout<T>(
         }
 
         fn wake_by_ref(self: &Arc<Self>) {
-            self.0.send(()).ok();
+            // Never block the waking thread: a full buffer already guarantees that
+            // the blocked thread will be woken (and a wake from inside poll would
+            // otherwise block the only thread able to receive).
+            self.0.try_send(()).ok();
         }
     }
     let (sender, receiver) = std::sync::mpsc::sync_channel(1);
